@@ -1,4 +1,5 @@
 import Arimaa.Gen.BridgeTac
+import Arimaa.Gen.BridgeFacts
 import Lean
 
 /-!
